@@ -21,9 +21,13 @@ def rule_a(ctx):
     who_may_call(ctx, 'a', 'on_packet_authenticated_callers', ['Connection::on_packet_authenticated'], ['Connection::handle_packet', 'Connection::handle_first_packet'], floor=2)
     for b in (hp, hfp):
         sites = b.calls_to('Connection::process_decrypted_packet') + b.calls_to('Connection::on_packet_authenticated')
+        # a packet without a packet number (Retry / Version Negotiation: decrypt_packet returned Ok(None)) has nothing to
+        # record: a path that leaves a test of THAT number's Option discriminant over its None edge is exempt, whether the
+        # test is made inside Option::is_some_and (a may-site itself) or spelled `match number { Some(n) => insert(n), None => false }`
+        none_edges = _number_none_edges(F, b, b.calls_to('Connection::decrypt_packet')) if b is hp else set()
         for s in sites:
-            p = must_precede(F, b, s.bb, ['Dedup::insert'], depth=2)
-            ctx.check(p is None, 'a', 'process_before_dedup', b, s.where(), 'every path to %s passes a site reaching Dedup::insert' % short(s.f),
+            p = _must_precede_or_edge(F, b, s.bb, ['Dedup::insert'], 2, none_edges)
+            ctx.check(p is None, 'a', 'process_before_dedup', b, s.where(), 'every path to %s passes a site reaching Dedup::insert (or the None edge of the packet number: %d edge(s))' % (short(s.f), len(none_edges)),
                       'a path reaches %s without recording the packet number in Dedup: %s' % (short(s.f), fmt_path(b, p)))
     # the packet number recorded is the one processed (same value flows to both)
     for c in hfp.calls_to('Dedup::insert'):
@@ -39,12 +43,18 @@ def rule_a(ctx):
         for br in branches(F, hp):
             inner, neg = peel_not(br.desc)
             if contains_site(inner, c) and inner[0] == 'call':
-                nb += 1
                 t_dup = br.target(0 if neg else 1)
-                reach = hp.reachable_from(t_dup)
-                for s in sites:
-                    if s.bb in reach:
-                        ok = False
+            else:
+                # the same test with the verdict kept in a local: `let dup = match number { Some(n) => <c>, None => false }; if dup`
+                pol = _verdict_of_site(F, hp, br, c)
+                if pol is None:
+                    continue
+                t_dup = br.target(0 if pol else 1)
+            nb += 1
+            reach = hp.reachable_from(t_dup)
+            for s in sites:
+                if s.bb in reach:
+                    ok = False
     ctx.check(ok and nb >= 1, 'a', 'duplicate_edge_skips_processing', hp, hp.where(), 'is_duplicate true edge reaches no processing site (%d branch)' % nb,
               'a packet flagged duplicate by Dedup::insert can still be processed (or the result of the duplicate test is ignored)')
     # the closure handed to is_some_and inserts into the space of the packet
@@ -94,6 +104,92 @@ def rule_a(ctx):
 # --------------------------------------------------------------------------
 # Result provenance helpers (rule a)
 # --------------------------------------------------------------------------
+
+def _number_none_edges(F, body, dec):
+    """(bb, target) of the None edge of every branch on the discriminant of the packet number decrypt_packet returned
+    (element 1 of the Ok payload of a Result that is Ok only when a decrypt_packet site returned Ok)"""
+    out = set()
+    for br in branches(F, body):
+        if br.desc[0] == 'discr' and _from_decrypt(F, br.desc[1], dec, 1):
+            t_none = br.target(STD_VARIANTS['Option']['None'])
+            others = {t for v, t in br.edges if v is not None and v != STD_VARIANTS['Option']['None']}
+            if t_none is not None and t_none not in others:
+                out.add((br.bb, t_none))
+    return out
+
+
+def _must_precede_or_edge(F, body, site_bb, pats, depth, exempt_edges):
+    """must_precede, except that a path using one of exempt_edges is not offending.  None or an offending block path."""
+    blocks = may_sites(F, body, pats, depth) - {site_bb}
+    if site_bb not in body.live_blocks():
+        return None
+    if not exempt_edges:
+        return path_avoiding(body, [0], [site_bb], blocks)
+    if site_bb not in body.reachable_from(0, avoid=blocks, avoid_edges=exempt_edges):
+        return None
+    from collections import deque
+    prev, q = {0: None}, deque([0])
+    while q:
+        x = q.popleft()
+        if x == site_bb:
+            path = []
+            while x is not None:
+                path.append(x)
+                x = prev[x]
+            return list(reversed(path))
+        for y in body.succ[x]:
+            if y in blocks or y in prev or (x, y) in exempt_edges:
+                continue
+            prev[y] = x
+            q.append(y)
+    return [site_bb]
+
+
+def _bool_sources(F, body, op, bb, idx, neg=False, depth=0):
+    """terminal definitions of a bool operand followed through whole-local copies / moves and `!`:
+    (kind, payload, negated, defining block) with kind in call | const | other"""
+    if op[0] not in ('c', 'm'):
+        return [('const', str(op[2]), neg, bb)]
+    local, proj = op[1]
+    if proj or depth > 12:
+        return [('other', None, neg, bb)]
+    out = []
+    for df in describer(F, body).reaching_defs(local, bb, idx):
+        if df[0] == 'call':
+            out.append(('call', df[2], neg, df[1]))
+        elif df[0] == 'stmt' and df[3][0] == 'use':
+            out.extend(_bool_sources(F, body, df[3][1], df[1], df[2], neg, depth + 1))
+        elif df[0] == 'stmt' and df[3][0] == 'un' and df[3][1] == 'Not':
+            out.extend(_bool_sources(F, body, df[3][2], df[1], df[2], not neg, depth + 1))
+        else:
+            out.append(('other', None, neg, df[1] if len(df) > 1 and isinstance(df[1], int) else bb))
+    return out
+
+
+def _verdict_of_site(F, body, br, c):
+    """The switch `br` tests a bool local that IS the result of call site c whenever c was executed: every reaching
+    definition is c's result (one polarity) or the literal that reads `false` under that polarity, assigned in a block
+    that cannot be reached once c has returned (so after c the local always holds c's verdict).
+    Returns the polarity (True = operand is the negated result), None when br is not such a test."""
+    t = body.blocks[br.bb]['t']
+    if t[0] != 'switch':
+        return None
+    srcs = _bool_sources(F, body, t[1], br.bb, term_idx(body, br.bb))
+    pols = {neg for k, x, neg, _ in srcs if k == 'call' and x.bb == c.bb and x.f == c.f}
+    if len(pols) != 1:
+        return None
+    pol = pols.pop()
+    after = body.reachable_from(c.t) if c.t is not None else set()
+    for k, x, neg, dbb in srcs:
+        if k == 'call' and x.bb == c.bb and x.f == c.f:
+            continue
+        if k != 'const' or dbb in after:
+            return None
+        val = {'0': False, 'false': False, '1': True, 'true': True}.get(x.lower())
+        if val is None or (val != neg) != pol:      # the operand must read `not duplicate` on this alternative
+            return None
+    return pol
+
 
 _ERR_PRESERVING_SAME_PAYLOAD = ('Result::map_err', 'Result::inspect', 'Result::inspect_err')
 
@@ -196,6 +292,18 @@ def _err_edge_skips(ctx, rule, instance, body, call, sites):
         ctx.bad(rule, instance + '/result_not_checked', body, call.where(), 'the Result of %s is not branched on' % short(call.f))
 
 
+def _err_target_of(br, c):
+    """br tests the Result discriminant of call site c: `c.is_err()`, `c.is_ok()` (either negated), or a read of the
+    discriminant itself (`if let Err(_) = c`, `match c`, `c?`).  Returns the block entered when c returned Err, else None."""
+    inner, neg = peel_not(br.desc)
+    if inner[0] == 'call' and inner[1] in ('Result::is_err', 'Result::is_ok') and len(inner[3]) == 1 and _is_call_site(inner[3][0], c):
+        err_when = (inner[1] == 'Result::is_err') != neg        # value of the switch operand when c returned Err
+        return br.target(1 if err_when else 0)
+    if not neg and inner[0] == 'discr' and _is_call_site(inner[1], c):
+        return br.target(STD_VARIANTS['Result']['Err'])
+    return None
+
+
 def rule_b(ctx):
     F = ctx.facts
     who_may_call(ctx, 'b', 'handle_first_packet_callers', ['Connection::handle_first_packet'], ['Endpoint::accept'], floor=1)
@@ -209,13 +317,12 @@ def rule_b(ctx):
     for c in decs:
         ok, found = True, False
         for br in branches(F, ac):
-            inner, neg = peel_not(br.desc)
-            if inner[0] == 'call' and inner[1] == 'Result::is_err' and inner[3] and is_site(inner[3][0], c):
+            t_err = _err_target_of(br, c)
+            if t_err is not None:
                 found = True
-                t_err = br.target(0 if neg else 1)
                 ok = ok and all(s.bb not in ac.reachable_from(t_err) for s in hs) and all(x.bb not in ac.reachable_from(t_err) for x in ac.calls_to('Endpoint::add_connection'))
         ok = ok and found
-        ctx.check(ok, 'b', 'authentication_failure_creates_no_connection', ac, c.where(), 'is_err edge reaches neither add_connection nor handle_first_packet', 'an Initial that fails authentication can still create/drive a connection')
+        ctx.check(ok, 'b', 'authentication_failure_creates_no_connection', ac, c.where(), 'Err edge of decrypt reaches neither add_connection nor handle_first_packet', 'an Initial that fails authentication can still create/drive a connection')
     hf = ctx.pfn('Endpoint::handle_first_packet')
     nc = [c for c in constructions(F, 'DatagramEvent', 'NewConnection', crate='quinn_proto')]
     rb = hf.calls_to('Packet::reserved_bits_valid')
